@@ -3,7 +3,9 @@
    Model: Model/Tempering.v (header comment maps parallel.py lines to definitions). *)
 From Coq Require Import List Arith ZArith QArith Bool.
 From IT Require Import Common.ExpBounds Common.Confluence Model.Tempering
-  Proofs.TemperingPairsProofs Proofs.TemperingProofs Proofs.TemperingSysProofs.
+  Proofs.TemperingPairsProofs Proofs.TemperingProofs Proofs.TemperingSysProofs
+  Proofs.TemperingRealProofs.
+From Coq Require Import Reals Qreals.
 Import ListNotations.
 Open Scope Q_scope.
 
@@ -39,6 +41,14 @@ Theorem C08_swap_prob_temperatures : forall Ti Tj Li Lj pri prj : Q,
   swap_exponent (1 / Ti) (1 / Tj) pri prj == (1 / Ti - 1 / Tj) * (Lj - Li).
 Proof. exact swap_exponent_temperatures. Qed.
 
+(* over the reals (soundness of the rational exp bounds): whenever the model decides,
+   the decision is  u <= exp((beta_i - beta_j)(L_j - L_i)) *)
+Theorem C08_swap_prob_real : forall (u bi bj Li Lj pri prj : Q) (b : bool),
+  ~ bi == 0 -> ~ bj == 0 -> pri == bi * Li -> prj == bj * Lj ->
+  swap_decide u bi bj pri prj = Some b ->
+  (b = true <-> (Q2R u <= exp ((Q2R bi - Q2R bj) * (Q2R Lj - Q2R Li)))%R).
+Proof. exact swap_decision_real_le. Qed.
+
 (* ---- after an accepted exchange ---- *)
 Theorem C08_exchange_state : forall (take_step : chain -> chain) cs i j ci cj xi pi oi xj pj oj,
   i <> j -> nth_error cs i = Some ci -> nth_error cs j = Some cj ->
@@ -61,6 +71,15 @@ Theorem C08_exchange_aligned : forall (take_step : chain -> chain) (logp : point
   forall k c, nth_error cs k = Some c -> aligned logp c ->
   forall c', nth_error (exchange take_step cs i j) k = Some c' -> aligned logp c'.
 Proof. exact exchange_aligned. Qed.
+
+(* a whole round: update messages go to exactly the members of the accepted pairs,
+   one each; nobody else is sent anything (so unexchanged chains are untouched) *)
+Theorem C08_swap_round_messages : forall betas data pairs st ms st',
+  NoDup (flatten pairs) ->
+  swap_pairs betas data pairs st = (ms, st') ->
+  NoDup (map fst ms) /\
+  exists acc, cs_succ st' = cs_succ st ++ acc /\ incl acc pairs /\ map fst ms = flatten acc.
+Proof. exact swap_round_messages. Qed.
 
 (* ---- advance(n, swap_interval) ---- *)
 Theorem C08_advance_total : forall n s : nat, (0 < s)%nat ->
@@ -110,6 +129,12 @@ Theorem C08_reference_run_decides :
       (terminal (step hdl N) t2 -> m = n /\ co t2 = co t /\ forall i, ws t2 i = ws t i).
 Proof. exact reference_run_decides. Qed.
 
+(* ---- defect D9 of the pinned tree: return_chains() blocks under every schedule ---- *)
+Theorem C08_return_chains_pinned_refuted :
+  forall m t2, steps (step d9_handler 1) m d9_sys t2 -> terminal (step d9_handler 1) t2 ->
+  forall r, co t2 <> Done r.
+Proof. exact return_chains_pinned_refuted. Qed.
+
 (* ---- shutdown ---- *)
 Theorem C08_shutdown_terminates : forall (take_step : chain -> chain) (w : wproc),
   let w' := Nat.iter 4 (wstep take_step true) w in
@@ -145,12 +170,15 @@ Print Assumptions C08_pairs_disjoint_uniform.
 Print Assumptions C08_pairs_loop_complete.
 Print Assumptions C08_swap_prob.
 Print Assumptions C08_swap_prob_temperatures.
+Print Assumptions C08_swap_prob_real.
 Print Assumptions C08_exchange_state.
 Print Assumptions C08_exchange_aligned.
+Print Assumptions C08_swap_round_messages.
 Print Assumptions C08_advance_total.
 Print Assumptions C08_advance_shape.
 Print Assumptions C08_steps_diamond.
 Print Assumptions C08_schedule_independent.
 Print Assumptions C08_schedule_independent_pt.
 Print Assumptions C08_reference_run_decides.
+Print Assumptions C08_return_chains_pinned_refuted.
 Print Assumptions C08_shutdown_terminates.
